@@ -95,6 +95,7 @@ func expand(ps []PlanSpec) []*HarnessSpec {
 }
 
 type nativeCase struct {
+	Pkg     string            `json:"pkg"`
 	ID      string            `json:"id"`
 	Harness string            `json:"harness"`
 	Params  []int             `json:"params"`
@@ -251,13 +252,13 @@ func cmdCheck(args []string) int {
 		s := samples[i]
 		id := fmt.Sprintf("s%d", i)
 		byID[id] = s
-		cases = append(cases, nativeCase{ID: id, Harness: s.Harness, Params: s.Params, Inputs: s.raw})
+		cases = append(cases, nativeCase{Pkg: s.Pkg, ID: id, Harness: s.Harness, Params: s.Params, Inputs: s.raw})
 	}
 	violByID := map[string]*Violation{}
 	for i, v := range viols {
 		id := fmt.Sprintf("v%d", i)
 		violByID[id] = v
-		cases = append(cases, nativeCase{ID: id, Harness: v.Harness, Params: v.Params, Inputs: v.Model})
+		cases = append(cases, nativeCase{Pkg: v.Pkg, ID: id, Harness: v.Harness, Params: v.Params, Inputs: v.Model})
 	}
 	validated, mismatches := 0, 0
 	nativeS := 0.0
@@ -324,7 +325,7 @@ func cmdCheck(args []string) int {
 	sort.Slice(ids, func(i, j int) bool { a, _ := strconv.Atoi(ids[i][1:]); b, _ := strconv.Atoi(ids[j][1:]); return a < b })
 	for _, id := range ids {
 		v := violByID[id]
-		key := v.Harness + "|" + v.Label
+		key := v.Pkg + "|" + v.Harness + "|" + v.Label
 		if reported[key] {
 			continue
 		}
@@ -352,8 +353,8 @@ func cmdCheck(args []string) int {
 			continue
 		}
 		reported[key] = true
-		cexPath := filepath.Join(c.outDir, fmt.Sprintf("cex-%s-%s.json", v.Harness, sanitize(v.Label)))
-		cex := map[string]interface{}{"property": c.prop, "harness": v.Harness, "params": v.Params, "label": v.Label, "kind": v.Kind, "message": v.Msg, "inputs": v.Model, "pkg": pkgOf[v.Harness], "tier": c.tier}
+		cexPath := filepath.Join(c.outDir, fmt.Sprintf("cex-%s-%s-%s.json", sanitize(filepath.Base(v.Pkg)), v.Harness, sanitize(v.Label)))
+		cex := map[string]interface{}{"property": c.prop, "harness": v.Harness, "params": v.Params, "label": v.Label, "kind": v.Kind, "message": v.Msg, "inputs": v.Model, "pkg": v.Pkg, "tier": c.tier}
 		cd, _ := json.MarshalIndent(cex, "", " ")
 		os.WriteFile(cexPath, cd, 0o644)
 		isKnown := false
@@ -533,10 +534,17 @@ func (c *checkCtx) runNative(prog *Program, specs []*HarnessSpec, cases []native
 	// group by package
 	byPkg := map[string][]nativeCase{}
 	for _, cs := range cases {
-		p := pkgOf[cs.Harness]
+		p := cs.Pkg
+		if p == "" {
+			p = pkgOf[cs.Harness]
+		}
 		byPkg[p] = append(byPkg[p], cs)
 	}
-	ov, files, err := overlayFor(c.repo, c.hdir, "native")
+	ovMode := "native"
+	if mode == "synctest" {
+		ovMode = "native_sync"
+	}
+	ov, files, err := overlayFor(c.repo, c.hdir, ovMode)
 	if err != nil {
 		return nil, err
 	}
@@ -564,7 +572,11 @@ func (c *checkCtx) runNative(prog *Program, specs []*HarnessSpec, cases []native
 		sp := prog.pkgs[p]
 		rel := strings.TrimPrefix(strings.TrimPrefix(p, modPath), "/")
 		var sb strings.Builder
-		sb.WriteString("//go:build verif\n\npackage " + sp.Pkg.Name() + "\n\nimport (\n\t\"encoding/json\"\n\t\"fmt\"\n\t\"os\"\n\t\"testing\"\n)\n\n")
+		sb.WriteString("//go:build verif\n\npackage " + sp.Pkg.Name() + "\n\nimport (\n\t\"encoding/json\"\n\t\"fmt\"\n\t\"os\"\n\t\"testing\"\n")
+		if mode == "synctest" {
+			sb.WriteString("\t\"runtime\"\n\t\"testing/synctest\"\n")
+		}
+		sb.WriteString(")\n\n")
 		sb.WriteString("func verifDispatch(name string, p []int) {\n\tswitch name {\n")
 		seen := map[string]bool{}
 		for _, s := range specs {
@@ -599,7 +611,7 @@ func (c *checkCtx) runNative(prog *Program, specs []*HarnessSpec, cases []native
 	}
 	for _, c := range cases {
 		fmt.Printf("VERIF-CASE %s\n", c.ID)
-		func() {
+		verifWrap(t, func() {
 			defer func() {
 				if r := recover(); r != nil {
 					if _, ok := r.(verifAssumeFailed); ok {
@@ -610,12 +622,18 @@ func (c *checkCtx) runNative(prog *Program, specs []*HarnessSpec, cases []native
 				}
 			}()
 			verifLoadCase(verifCase{Inputs: c.Inputs}, os.Stdout)
+			verifResetClock()
 			verifDispatch(c.Harness, c.Params)
-		}()
+		})
 		fmt.Printf("VERIF-ENDCASE\n")
 	}
 }
 `)
+		if mode == "synctest" {
+			sb.WriteString("\nfunc verifWrap(t *testing.T, f func()) {\n\tsynctest.Test(t, func(t *testing.T) {\n\t\tverifBaseGoroutines = runtime.NumGoroutine()\n\t\tf()\n\t})\n}\n")
+		} else {
+			sb.WriteString("\nfunc verifWrap(t *testing.T, f func()) { f() }\n")
+		}
 		tf := filepath.Join(scratch, "replay_"+sanitize(rel)+"_test.go")
 		os.WriteFile(tf, []byte(sb.String()), 0o644)
 		replace[filepath.Join(c.repo, rel, "zz_verif_replay_test.go")] = tf
@@ -692,4 +710,77 @@ func parseNative(out []byte, results map[string]*nativeResult) {
 			cur.Panic = "test binary terminated abnormally"
 		}
 	}
+}
+
+// cmdReplay re-runs a recorded counterexample natively against the real build.
+func cmdReplay(args []string) int {
+	if len(args) < 1 {
+		fmt.Fprintln(os.Stderr, "usage: gosym replay <cex.json>")
+		return 2
+	}
+	data, err := os.ReadFile(args[0])
+	if err != nil {
+		fmt.Fprintln(os.Stderr, err)
+		return 2
+	}
+	var cex struct {
+		Property string            `json:"property"`
+		Harness  string            `json:"harness"`
+		Params   []int             `json:"params"`
+		Label    string            `json:"label"`
+		Kind     string            `json:"kind"`
+		Pkg      string            `json:"pkg"`
+		Inputs   map[string]uint64 `json:"inputs"`
+	}
+	if err := json.Unmarshal(data, &cex); err != nil {
+		fmt.Fprintln(os.Stderr, err)
+		return 2
+	}
+	c := &checkCtx{repo: envOr("VERIF_REPO", "/repo"), verif: envOr("VERIF_DIR", "/verif"), prop: cex.Property}
+	c.hdir = filepath.Join(c.verif, "harness")
+	c.outDir = filepath.Join(c.verif, "out", cex.Property+"-replay")
+	os.MkdirAll(c.outDir, 0o755)
+	ov, _, err := overlayFor(c.repo, c.hdir, "sym")
+	if err != nil {
+		fmt.Fprintln(os.Stderr, err)
+		return 2
+	}
+	prog, err := loadProgram(c.repo, []string{cex.Pkg}, ov)
+	if err != nil {
+		fmt.Fprintln(os.Stderr, err)
+		return 2
+	}
+	spec := &HarnessSpec{Pkg: cex.Pkg, Func: cex.Harness, Params: cex.Params}
+	mode := ""
+	var plan map[string]*PlanProp
+	if pd, err := os.ReadFile(filepath.Join(c.hdir, "plan.json")); err == nil {
+		json.Unmarshal(pd, &plan)
+		if pp := plan[cex.Property]; pp != nil {
+			mode = pp.Native
+		}
+	}
+	res, err := c.runNative(prog, []*HarnessSpec{spec}, []nativeCase{{Pkg: cex.Pkg, ID: "cex", Harness: cex.Harness, Params: cex.Params, Inputs: cex.Inputs}}, map[string]string{cex.Harness: cex.Pkg}, mode)
+	if err != nil {
+		fmt.Fprintln(os.Stderr, err)
+		return 2
+	}
+	r := res["cex"]
+	if r == nil {
+		fmt.Println("no result from native run")
+		return 2
+	}
+	fmt.Printf("native replay of %s %v: failed assertions=%v panic=%q\n", cex.Harness, cex.Params, r.Fails, r.Panic)
+	reproduced := false
+	switch cex.Kind {
+	case "panic", "deadlock":
+		reproduced = r.Panic != "" || contains(r.Fails, "deadlock")
+	default:
+		reproduced = contains(r.Fails, cex.Label)
+	}
+	if reproduced {
+		fmt.Printf("REPRODUCED property=%s label=%q\n", cex.Property, cex.Label)
+		return 1
+	}
+	fmt.Println("not reproduced")
+	return 0
 }
